@@ -167,20 +167,28 @@ def segments(g):
     return [set(c) for c in nx.weakly_connected_components(h)]
 
 
-def c19rel_case(times, parents, extra_label):
+def c19rel_case(times, parents, extra_label, reuse=False):
     from funtracks.utils._segmentation_utils import relabel_segmentation_with_track_id
     n = len(times)
     frames = max(times) + 1
-    seg = np.zeros((frames, n + 1), dtype=np.int64)
+    seg = np.zeros((frames, n + 2), dtype=np.int64)
     g = nx.DiGraph()
+    per_frame = {}
     for i, t in enumerate(times):
-        seg[t, i] = 10 + i  # detection i+1 has seg id 10+i in frame t
-        g.add_node(i + 1, time=t, seg_id=10 + i)
+        # detection i+1 has seg id 10+i in frame t; with `reuse` the label values start again at 10 in every frame
+        sid = 10 + per_frame.get(t, 0) if reuse else 10 + i
+        per_frame[t] = per_frame.get(t, 0) + 1
+        seg[t, i] = sid
+        g.add_node(i + 1, time=t, seg_id=sid)
     for i, p in enumerate(parents):
         if p:
             g.add_edge(p, i + 1)
     if extra_label:
         seg[0, n] = 99  # a detection that is not in the solution
+        if reuse:
+            # ... and one whose label value is some node's seg id in another frame (or unused): frame f's next free value
+            for f in range(frames):
+                seg[f, n + 1] = 10 + per_frame.get(f, 0)
     out = relabel_segmentation_with_track_id(g, seg)
     lab = {i + 1: int(out[times[i], i]) for i in range(n)}
     bad = []
@@ -190,7 +198,7 @@ def c19rel_case(times, parents, extra_label):
             bad.append(f"segment {sorted(s)} got labels {[lab[x] for x in sorted(s)]}")
     if len({lab[next(iter(s))] for s in segs}) != len(segs):
         bad.append("two segments share a label")
-    if extra_label and out[0, n] != 0:
+    if extra_label and (out[0, n] != 0 or (out[:, n + 1] != 0).any()):
         bad.append("detection not in the solution was kept")
     if (out != 0).sum() != n:
         bad.append("number of labelled pixels changed")
@@ -204,13 +212,14 @@ def c19rel(size, seed):
     for n in range(1, nmax + 1):
         for times, parents in forests(n, frames):
             for extra in (False, True):
-                cases += 1
-                nontrivial += sum(1 for p in parents if p) >= 2
-                bad = c19rel_case(times, parents, extra)
-                if bad:
-                    viol.append({"what": "c19rel", "times": times, "parents": parents, "extra": extra, "bad": bad})
-                    if len(viol) > 3:
-                        return cases, nontrivial, viol
+                for reuse in (False, True):
+                    cases += 1
+                    nontrivial += sum(1 for p in parents if p) >= 2
+                    bad = c19rel_case(times, parents, extra, reuse)
+                    if bad:
+                        viol.append({"what": "c19rel", "times": times, "parents": parents, "extra": extra, "reuse": reuse, "bad": bad})
+                        if len(viol) > 3:
+                            return cases, nontrivial, viol
     return cases, nontrivial, viol
 
 
@@ -676,7 +685,7 @@ def replay(w):
     elif k == "c13_builder":
         bad = c13_builder_case([tuple(d) for d in w["dets"]], tuple(w["ids"]), tuple(w["extra"]) if w["extra"] else None)
     elif k == "c19rel":
-        bad = c19rel_case(tuple(w["times"]), tuple(w["parents"]), w["extra"])
+        bad = c19rel_case(tuple(w["times"]), tuple(w["parents"]), w["extra"], w.get("reuse", False))
     elif k == "c15":
         with tempfile.TemporaryDirectory() as tmp:
             bad = c15_case(tuple(w["times"]), tuple(w["parents"]), tuple(w["subset"]), w["seg"], tmp)
